@@ -69,6 +69,7 @@ fn dispatch(check: &dyn tcheck::TCheck, args: &Args) -> ! {
 }
 
 fn main() {
+    simcore::install_log_sink();
     let args = parse_args();
     match args.cmd.as_str() {
         "c08" => dispatch(&c08::C08, &args),
